@@ -109,6 +109,8 @@ def gen_cases(ck, sgs, allstrata):
                 off = offs[1 + (sg.number + i) % 2]
                 xo = [x0[j] - off[j] for j in range(3)]
                 yield sg, "offset", xo, xo, off, st[i]
+                xio = [xin[j] - off[j] for j in range(3)]
+                yield sg, "inside+offset", xo, xio, off, st[i]
             if ck.tier == "thorough":
                 for off in offs[1:]:
                     xo = [x0[j] - off[j] + Fraction(ck.rng.randrange(-1, 2)) for j in range(3)]
@@ -122,7 +124,7 @@ def check_impl(sg, kind, x0, x, off, expandPosition, GeneratorSite):
     pos, cls, mult = expandPosition(sg, xf, of, 1.0e-5)
     opos, ocls = oracle_classes(sg, x0, off)
     n = len(sg.symop_list)
-    tol = 1e-9 if kind != "inside" else 5e-7
+    tol = 1e-9 if not kind.startswith("inside") else 5e-7
     if mult != len(pos) or len(cls) != len(pos):
         return "inconsistent lengths: multiplicity %r, %d positions, %d op lists" % (mult, len(pos), len(cls)), None
     for p in pos:
@@ -146,12 +148,16 @@ def check_impl(sg, kind, x0, x, off, expandPosition, GeneratorSite):
         return "operations are not attributed exactly once", None
     if len(pos) * len(got[0]) != n:
         return "multiplicity %d x stabiliser %d != group order %d" % (len(pos), len(got[0]), n), None
-    if kind == "inside":
+    if kind in ("inside", "offset", "offset+shift", "inside+offset"):
+        # GeneratorSite re-expands the (possibly adjusted) site: same orbit, also with a shifted origin
         gs = GeneratorSite(sg, xf, sgoffset=of, eps=1.0e-5)
         if gs.multiplicity != len(opos):
             return "GeneratorSite multiplicity %d, exact %d" % (gs.multiplicity, len(opos)), None
         if pdist(gs.xyz, x0) > 2e-7:
             return "GeneratorSite snapped to %r, special position is %r" % (gs.xyz.tolist(), list(map(float, x0))), None
+        gcls = [sorted(idx_of.get(id(o), -1) for o in c) for c in gs.symops]
+        if gcls != [sorted(c) for c in ocls]:
+            return "GeneratorSite.symops attribution %r differs from the exact orbit's %r" % (gcls[:4], [sorted(c) for c in ocls][:4]), None
         # the adjusted site must stay within the tolerance of the special position and its listed
         # equivalent positions must be the exact orbit (the property speaks about the returned set;
         # how exactly the site is snapped is not part of the statement)
@@ -220,7 +226,7 @@ def run(ck):
                 mm, mpos, mcls = parse_model(o, D)
             except Exception:
                 mm, mpos, mcls = -1, [], []
-            tol = 1e-9 if kind != "inside" else 5e-7
+            tol = 1e-9 if not kind.startswith("inside") else 5e-7
             agree = (mm == summ[0] and len(mpos) == len(summ[1]) and all(pdist(a, b) <= tol for a, b in zip(mpos, summ[1]))
                      and [sorted(cl) for cl in mcls] == summ[2])
             if not agree:
